@@ -87,7 +87,8 @@ class SocketServer_Multiplex(object):
                     try:
                         self.daemon._clientDisconnect(s)
                     except Exception as x:
-                        log.warning("Error in clientDisconnect: " + str(x))
+                        # let the logging module format the exception: an exception whose __str__ raises must not end the loop
+                        log.warning("Error in clientDisconnect: %s", x)
                     self.selector.unregister(s)
                     s.close()
         self.daemon._housekeeping()
@@ -174,14 +175,14 @@ class SocketServer_Multiplex(object):
             return False
         except errors.TimeoutError as x:
             # for timeout errors we're not really interested in detailed traceback info
-            log.warning("error during handleRequest: %s" % x)
+            log.warning("error during handleRequest: %s", x)
             return False
         except Exception:
             # other error occurred, close the connection, but also log a warning
             ex_t, ex_v, ex_tb = sys.exc_info()
             tb = errors.format_traceback(ex_t, ex_v, ex_tb)
-            msg = "error during handleRequest: %s; %s" % (ex_v, "".join(tb))
-            log.warning(msg)
+            # (formatted by the logging module: an exception whose __str__ raises must not end the request loop)
+            log.warning("error during handleRequest: %s; %s", ex_v, "".join(tb))
             return False
 
     def loop(self, loopCondition=lambda: True):
